@@ -57,8 +57,10 @@ def _gen_cases(tier, seed):
                             yield C(w="normalize", shape=list(shp), R=R, wk=wk, zerocol=zc, normtype=nt,
                                     weight_factor=[None, "all", int(rng.integers(0, N))][int(rng.integers(0, 3))],
                                     sort=bool(rng.integers(0, 2)), mode=None)
-                        yield C(w="normalize", shape=list(shp), R=R, wk=wk, zerocol=zc, normtype=2, weight_factor=None, sort=False,
-                                mode=int(rng.integers(0, N)))
+                        for nt in (2, 1, "inf"):
+                            # a single mode normalised (its column norms move into the weights), in every norm
+                            yield C(w="normalize", shape=list(shp), R=R, wk=wk, zerocol=zc, normtype=nt, weight_factor=None, sort=False,
+                                    mode=int(rng.integers(0, N)))
                         for wf in [None] + list(range(N)):
                             yield C(w="arrange", shape=list(shp), R=R, wk=wk, zerocol=zc, weight_factor=wf, perm=None)
                         for m in range(N):
